@@ -10,8 +10,8 @@ LEVEL = "fault_enumeration"
 LEVEL_TEXT = ("Complete enumeration of base program (9 programs whose lines contain every construct that touches line bookkeeping: ; and "
               "/* */ comments, multi-line comments, blank lines, indentation, blocks, named scopes, macro definitions and applications, "
               "loops, conditionals, data lists, quoted strings, bare mnemonics with trailing comments, long files, form feed / NEL / U+2028 inside comments and strings) x every "
-              "line boundary where a statement can stand x 11 faulty statements (undefined symbol in an operand / in .db, bad size "
-              "suffix, bad index register, unterminated string before a newline / at end of input / ending in a backslash) x 4 indentations (none, spaces, tab, mixed) x 3 file "
+              "line boundary where a statement can stand x 14 faulty statements (undefined symbol in an operand / in .db, bad size "
+              "suffix, bad index register, unterminated string before a newline / at end of input / ending in a backslash, an undefined symbol on a continuation line of a statement that spans lines) x 4 indentations (none, spaces, tab, mixed; for one program also after a 40000 / 70000 / 140000-character comment on the same line) x 3 file "
               "situations (main file; inside an included file; in the main file after an include). The reported text must name the "
               "right file and zero-based line, quote that line, and for lexical errors give the column of the offending character. "
               "Four unit tests check an error on line 0 of a one-line program.")
@@ -148,13 +148,19 @@ FAULTS = {
     "unterminated-string-at-eof": (".ascii 'abc", 7),
     "undefined-symbol-dw-before-multiline-comment": (".dw nosuchsymbol /* comment opened on the statement's line\n   and closed on the next */", None),
     "unterminated-string-ending-in-backslash": (".ascii 'C:\\data\\", 7),
+    # statements that span several lines: the report names the line the statement starts on
+    "undefined-symbol-on-a-continuation-line": (".dw 1,\n    nosuchsymbol,\n    3", None),
+    "undefined-symbol-on-the-last-continuation-line": (".db 1,\n 2,\n nosuchsymbol", None),
+    "undefined-operand-on-the-next-line": ("lda.w #\n   nosuchsymbol", None),
 }
+# very long lines: the faulty statement preceded ON ITS LINE by a block comment of this many characters (base 'plain' only)
+LONG_PREFIXES = [40000, 70000, 140000]
 SITUATIONS = ["main", "included", "main-after-include"]
 INC_VALID = "; included helper file\n\nhelper_value = 0x21\n/* with\n a comment */\n; end of helper\n"
 
 
 def bound(tier):
-    return "11 base programs x every insertable line boundary x 11 faults x 4 indentations (none, spaces, tab, mixed) x 3 file situations (thorough: + nested include, + the 13 generated programs of the layout check)"
+    return "11 base programs x every insertable line boundary x 14 faults (3 of them statements spanning lines) x 4 indentations (none, spaces, tab, mixed; one program also after a 40000/70000/140000-character comment on the same line) x 3 file situations (thorough: + nested include, + the 13 generated programs of the layout check)"
 
 
 def parse_base(text):
@@ -272,7 +278,10 @@ def run_fault(name, fault, sit):
     for at in insertable:
         if fault == "unterminated-string-at-eof" and at != len(lines):
             continue
-        for indent in ("", "    ", "\t", "\t  \t"):
+        indents = ["", "    ", "\t", "\t  \t"]
+        if name == "plain":
+            indents += ["/* " + "x" * n + " */ " for n in LONG_PREFIXES]
+        for indent in indents:
             faulty = indent + stmt
             col = None if col0 is None else col0 + len(indent)
             new = lines[:at] + [faulty] + lines[at:]
@@ -297,6 +306,8 @@ def run_fault(name, fault, sit):
             if at > 0:
                 nt += 1
             ctx = f"{name}/{sit}/line {at}/indent {len(indent)}"
+            if len(src) > 5000:
+                src = src[:200] + f"...({len(src)} characters)"
             if out.status == "timeout":
                 viol.append({"key": f"location:hang:{fault}", "msg": ctx})
                 continue
